@@ -46,7 +46,7 @@ OFFSETS = [0, 0, 0, 0.5, 1, 1, 2, 3]
 
 
 def n_cases(tier):
-    return 400 if tier == 'quick' else 450
+    return 400 if tier == 'quick' else 1500
 
 
 def make_case(seed, index, tier):
